@@ -166,6 +166,34 @@ def check_step(ctx, rs, model, gemini, weights, before, grads, Xb, Ab, pairs, in
     return True
 
 
+class BatchSpy:
+    """callable proxy around an estimator's `_batchify`: records (X_batch, affinity_batch, indices known to the wrapped object
+    after the yield) and forwards every other attribute read / write to the wrapped callable"""
+
+    def __init__(self, inner, steps):
+        object.__setattr__(self, "_inner", inner)
+        object.__setattr__(self, "_steps", steps)
+
+    def __call__(self, Xa, affinity_matrix=None, random_state=None):
+        for xb, ab in self._inner(Xa, affinity_matrix, random_state):
+            self._steps.append((np.array(xb, copy=True), None if ab is None else np.array(ab, copy=True),
+                                list(getattr(self._inner, "indices", []))))
+            yield xb, ab
+
+    def __getattr__(self, name):
+        return getattr(object.__getattribute__(self, "_inner"), name)
+
+    def __setattr__(self, name, value):
+        setattr(object.__getattribute__(self, "_inner"), name, value)
+
+
+def fit_lib_rejection(e):
+    """exceptions that are documented rejections of the generated configuration, not failures of fit"""
+    msg = str(e)
+    return isinstance(e, ValueError) and any(t in msg for t in ("n_samples=", "min_samples", "Contradiction", "feature mask",
+                                                                  "must be", "parameter of"))
+
+
 def fit_cases(ctx, rs, nfits):
     import gemclus
     E = fl.estimators()
@@ -188,8 +216,24 @@ def fit_cases(ctx, rs, nfits):
             kw["reg"] = float(rs.choice([0.0, 0.1, 1.0]))
         if fl.accepts(cls, "alpha"):
             kw["alpha"] = float(rs.choice([0.0, 0.01, 0.5]))
+            if it % 4 == 1:
+                # a penalty strong enough to ELIMINATE features during the fit (exactly-zero weight rows): the direction handed
+                # to the optimiser must still be the gradient there, also for the rows that are currently zero
+                kw["alpha"] = float(rs.choice([5.0, 30.0]))
+                kw["learning_rate"] = 0.05
+                kw["max_iter"] = 6
+                if fl.accepts(cls, "M"):
+                    kw["M"] = float(rs.choice([1.0, 0.25]))
         if fl.accepts(cls, "ovo"):
             kw["ovo"] = bool(rs.randint(2))
+        if it % 5 == 2 and it < nfits - 9:
+            # dedicated: sparse MLP under a penalty that eliminates features within a few steps
+            fam, cls = "SparseMLPModel", E["SparseMLPModel"]
+            n, d, K = 8, 3, 2
+            X = fl.small_data(rs, n, d)
+            kw = dict(n_clusters=K, max_iter=8, solver=str(rs.choice(["adam", "sgd"])), random_state=int(rs.randint(100)), learning_rate=0.05,
+                      gemini=str(rs.choice(["kl_ova", "mmd_ova", "chi2_ova"])), batch_size=[None, 4][rs.randint(2)], n_hidden_dim=2,
+                      alpha=float(rs.choice([10.0, 30.0])), M=float(rs.choice([1.0, 0.5])))
         if fam == "Douglas":
             kw["n_cuts"] = int(rs.randint(1, 4))
             kw["max_iter"] = 2
@@ -230,29 +274,31 @@ def fit_cases(ctx, rs, nfits):
         steps = []
         try:
             with fl.capture_updates() as ups:
-                inner = model._batchify
-
-                def wrapped(Xa, affinity_matrix=None, random_state=None, _inner=inner):
-                    for xb, ab in _inner(Xa, affinity_matrix, random_state):
-                        steps.append((np.array(xb, copy=True), None if ab is None else np.array(ab, copy=True),
-                                      list(getattr(_inner, "indices", []))))
-                        yield xb, ab
-                model._batchify = wrapped
-                if decorated:
-                    # decorate_grads reads gemini_model._batchify.indices: keep it reachable
-                    class _Idx:
-                        pass
-                    wrapped.__dict__["indices"] = []
-                    orig_cg = model._compute_grads
-                    def cg(Xb, y, g, _o=orig_cg):
-                        wrapped.indices = inner.indices
-                        return _o(Xb, y, g)
-                    model._compute_grads = cg
+                # a transparent spy on the instance's `_batchify` (possibly the mlcl wrapper, which carries attributes such as
+                # `.indices` that `decorate_grads` reads): every attribute access is forwarded to the real object
+                model._batchify = BatchSpy(model._batchify, steps)
                 model.fit(X)
         except Exception as e:
             ctx.case((fam, repr(kw)), False, None)
             ctx.count(f"fit_raised:{fam}:{type(e).__name__}")
             ctx.extra.setdefault("fit_errors", []).append(f"{fam} {kw}: {type(e).__name__}: {e}"[:300])
+            if not fit_lib_rejection(e):
+                # a fit that dies on a configuration the validators accepted is no verdict on THIS property (C04 judges it), but it
+                # must not pass silently either: the run cannot vouch for the updates of that fit
+                import traceback
+                ctx.corr_break("fit:raised", {**inp, "decorated": bool(decorated)},
+                               {"fit raised": f"{type(e).__name__}: {e}", "traceback_tail": traceback.format_exc()[-600:]})
+                # the updates made BEFORE the crash are still judged
+                try:
+                    gemini, weights = model.get_gemini(), model._get_weights()
+                    for si in range(min(len(ups), len(steps)))[-4:]:
+                        before, grads = ups[si]
+                        Xb, Ab, idx = steps[si]
+                        pairs = (idx, ml, cl, factor) if decorated else None
+                        if not check_step(ctx, rs, model, gemini, weights, before, grads, Xb, Ab, pairs, {**inp, "step": int(si)}):
+                            break
+                except Exception:
+                    pass
             continue
         ctx.case((fam, repr(sorted(kw.items(), key=str)), X.tobytes(), decorated), True,
                  {"estimator": fam, "params": kw, "n": n, "d": d, "decorated": bool(decorated)} if it < 12 else None)
@@ -263,7 +309,23 @@ def fit_cases(ctx, rs, nfits):
             continue
         gemini = model.get_gemini()
         weights = model._get_weights()
-        sel = range(len(ups)) if len(ups) <= 3 else sorted(rs.choice(len(ups), size=3, replace=False))
+        sel = range(len(ups)) if len(ups) <= 3 else sorted(set(rs.choice(len(ups), size=3, replace=False).tolist()) | {len(ups) - 1})
+        if decorated and len(ups) > 3:
+            # constraint terms depend on which samples share a batch: every step of the first epochs is judged (the first batch
+            # of an epoch can be right while the later ones are not)
+            sel = list(range(min(len(ups), 8)))
+        if fam.startswith("Sparse"):
+            # the steps taken while SOME but not all features are eliminated are the interesting ones: judge them first
+            dd = X.shape[1]
+            def partial(bw):
+                z = [int((np.abs(w).sum(axis=1) == 0).sum()) for w in bw if w.ndim == 2 and w.shape[0] == dd]
+                return any(0 < c < dd for c in z)
+            part = [i for i in range(len(ups)) if partial(ups[i][0])]
+            if part:
+                sel = sorted(set(part[:3]) | set(list(sel)[:2]))
+                ctx.count("sparse-fit:steps-with-partly-eliminated-features", len(part))
+            zero_rows = int(sum(int((np.abs(w).sum(axis=1) == 0).sum()) for w in weights if w.ndim == 2 and w.shape[0] == X.shape[1]))
+            ctx.count("sparse-fit:some-rows-eliminated" if zero_rows else "sparse-fit:no-row-eliminated")
         for si in sel:
             before, grads = ups[si]
             Xb, Ab, idx = steps[si]
